@@ -21,7 +21,7 @@ RULE = ("user names / passwords drawn from: ASCII, quotes (single, double), back
         "Unicode (Cyrillic, CJK, emoji), '#', '=', ':'; each written as TOML basic string (with escapes), literal string, multi-line basic or "
         "multi-line literal where the value allows, with varied whitespace/comments; malformed tables (missing key, integer value, empty "
         "string); probes = base64(u:p) of each pair plus near misses (raw text, trimmed, unquoted); settings: all combinations of "
-        "address class x port x reverse-proxy validity x protocol subsets x credentials; non-trivial = value contains a character that "
+        "address class x port x reverse-proxy validity x protocol subsets x credentials; TLS hosts: every placement of a duplicated name over the four groups, unloadable certificate in each group, empty main group, random groups over a small name pool (case-differing names are distinct); non-trivial = value contains a character that "
         "needs quoting/escaping; distinct = distinct file text")
 
 ALPH = ["a", "Z", "0", " ", "\"", "'", "\\", "#", "=", ":", "я", "漢", "😀", "\t", "é", ".", "-", "_", "%"]
@@ -158,6 +158,53 @@ def gen_cases(rng, ctx):
                              protos & 1, (protos >> 1) & 1, (protos >> 2) & 1, nc]
                         l = line("c13_validate", [f, list(rp[1].encode()) if rp else []])
                         cases.append(Case(l, l, kind="validate", nontrivial=True, meta={"f": f}))
+    # TLS hosts: duplicates within and across the four groups, empty main group, unloadable certificates
+    NAMES = ["a.example", "b.example", "c.example", "ping.a.example", "A.example"]
+
+    def enc(names):
+        out = []
+        for n in names:
+            b = list(n.encode())
+            out += [len(b)] + b
+        return out
+
+    def hosts_case(groups, bad, kind):
+        names = [n for g in groups for n in g]
+        dup = len(set(names)) != len(names)
+        l = line("c13_hosts", [list(bad)] + [enc(g) for g in groups])
+        cases.append(Case(l, l, kind=kind, nontrivial=True,
+                          meta={"groups": groups, "bad": list(bad), "expect_refused": dup or not groups[0] or bad[0] != 0}))
+
+    # every placement of one duplicated name over the four groups (10 unordered pairs), on top of a valid base
+    for g1 in range(4):
+        for g2 in range(g1, 4):
+            groups = [["a.example"], ["r.example"], ["p.example"], ["s.example"]]
+            groups[g1] = groups[g1] + ["dup.example"]
+            groups[g2] = groups[g2] + ["dup.example"]
+            hosts_case(groups, (0, 0), "hosts:duplicate-%d-%d" % (g1, g2))
+            # the duplicate is the group's own first name
+            groups = [["a.example"], ["r.example"], ["p.example"], ["s.example"]]
+            groups[g2] = groups[g2] + [groups[g1][0]]
+            hosts_case(groups, (0, 0), "hosts:duplicate-first-%d-%d" % (g1, g2))
+    for g in range(4):
+        groups = [["a.example", "b.example"], ["r.example"], ["p.example"], ["s.example"]]
+        hosts_case(groups, (g + 1, 0), "hosts:unloadable-%d" % g)
+    hosts_case([[], ["r.example"], [], []], (0, 0), "hosts:no-main")
+    hosts_case([["a.example"], [], [], []], (0, 0), "hosts:minimal")
+    for i in range(400 if thorough else 120):
+        groups = [[rng.choice(NAMES) for _ in range(rng.choice([0, 1, 1, 2, 3]))] for _ in range(4)]
+        if rng.chance(3, 4) and not groups[0]:
+            groups[0] = [rng.choice(NAMES)]
+        if rng.chance(1, 2):
+            # mostly valid: make names unique
+            seen = set()
+            groups = [[n for n in g if not (n in seen or seen.add(n))] for g in groups]
+        bad = (0, 0)
+        if rng.chance(1, 8):
+            g = rng.below(4)
+            if groups[g]:
+                bad = (g + 1, rng.below(len(groups[g])))
+        hosts_case(groups, bad, "hosts:random")
     return cases
 
 
@@ -172,6 +219,17 @@ def judge(case, impl, model, spec, ctx):
             out.append(("violation", "the credentials file the setup wizard writes is read back with a different user name / password"))
         elif len(t) >= 6 and (untok(t[4]) != u or untok(t[5]) != p):
             out.append(("violation", "the exported client configuration carries a different user name / password"))
+        return out
+    if case.kind.startswith("hosts:"):
+        iv = untok(impl)
+        exp = 1 if case.meta["expect_refused"] else 0
+        what = "groups (main, reverse proxy, ping, speedtest) = %s, unloadable = %s" % (case.meta["groups"], case.meta["bad"])
+        if iv[0] != exp or iv[1] != exp:
+            out.append(("violation", "TLS hosts %s: builder refused = %d, Core::new refused = %d, expected %d (duplicate host names, "
+                                     "an empty main group or an unloadable certificate must be refused, anything else accepted)"
+                        % (what, iv[0], iv[1], exp)))
+        elif model is not None and impl != model:
+            out.append(("disagree", "TLS hosts validation differs from the model: %s vs %s" % (impl, model)))
         return out
     if case.kind == "validate":
         iv = untok(impl)
